@@ -548,8 +548,23 @@ def _judge_ctf(label, snap, res, exc):
     same_base = len({(c[0], tuple(map(tuple, c[1]))) for c in query}) != len({c[0] for c in query}) or \
         len({a[0] for a in anc_union}) < len(anc_union)
     observed = {c[0]: c[2] for c in valued if c[0] not in {i for i, _ in c[1]}}
-    two_values = any(i in observed and bool(observed[i]) != bool(s) for c in query for i, s in c[1]) or \
-        len({(i, bool(s)) for c in query for i, s in c[1]}) != len({i for c in query for i, _ in c[1]})
+    two_values = any(i in observed and bool(observed[i]) != bool(s) for c in query for i, s in c[1])
+    # one variable set to both values by different conjuncts: when the two settings reach DIFFERENT c-components of
+    # the ancestral graph each ctf-factor is consistent and y0 answers -- with an expression over names that cannot
+    # say which value is meant (listed); when they meet in ONE c-component the factor is inconsistent and the
+    # procedure must FAIL (not listed: an answer there is a new violation)
+    sub_ag = g.subgraph({a[0] for a in anc_union})
+    pm_ag = g.parents_map()
+    dist_of = {n: d for d in sub_ag.districts() for n in d}
+    reach: dict = {}
+    for name_a, subs in anc_union:
+        for i, sgn in subs:
+            if i in pm_ag.get(name_a, ()):
+                reach.setdefault((i, sgn), set()).add(dist_of[name_a])
+    for i in {i for (i, _) in reach}:
+        plus, minus = reach.get((i, True), set()), reach.get((i, False), set())
+        if plus and minus and not (plus & minus):
+            two_values = True
     summed = {a[0] for a in anc_union} - {c[0] for c in query}
     if label == "ctfTR":
         summed |= {c[0] for c in out_ev}  # the conditional procedure normalises by summing over the outcome variables
@@ -575,7 +590,7 @@ def _judge_ctf(label, snap, res, exc):
             return "ctf.reflexive-event-variable"
         if kind == "raise" and detached_condition:
             return "ctfTR.condition-outside-the-outcomes-ancestral-components"
-        if kind == "raise" and label == "ctfTR" and nonminimal:
+        if kind in ("raise", "value") and label == "ctfTR" and nonminimal:
             return "ctfTR.nonminimal-variable-not-found-in-its-ancestral-component"
         if same_base:
             return "ctf.same-base-twice"
